@@ -708,6 +708,33 @@ impl<'a> Judge<'a> {
     }
 }
 
+/// Op lists outside the documented domain: reversed, with a duplicated key (all Some/None combinations),
+/// with an adjacent swap.
+fn bad_op_lists(ops: &[(Key, Option<[u8; 32]>)]) -> Vec<Vec<(Key, Option<[u8; 32]>)>> {
+    let mut out = Vec::new();
+    if ops.is_empty() {
+        return out;
+    }
+    let mut rev = ops.to_vec();
+    rev.reverse();
+    out.push(rev);
+    for (a, b) in [(Some([3u8; 32]), Some([4u8; 32])), (None, Some([4u8; 32])), (Some([3u8; 32]), None), (None, None)] {
+        for at in [0, ops.len() / 2, ops.len() - 1] {
+            let mut d = ops.to_vec();
+            let k = d[at].0;
+            d[at].1 = a;
+            d.insert(at + 1, (k, b));
+            out.push(d);
+        }
+    }
+    if ops.len() >= 2 {
+        let mut sw = ops.to_vec();
+        sw.swap(0, 1);
+        out.push(sw);
+    }
+    out
+}
+
 /// Shared body of C08 and C18: build honest objects, mutate, verify, judge / record panics.
 fn adversarial<H: HK>(case: &CoreCase, totality: bool) -> Result<CaseInfo, Violation> {
     let mut info = CaseInfo::default();
@@ -757,6 +784,14 @@ fn adversarial<H: HK>(case: &CoreCase, totality: bool) -> Result<CaseInfo, Viola
                         judge
                             .path_statements::<H>(&v, &pr, &ops, root, &format!("path proof #{ti} (mutated: {mutated}) verified under a {len}-bit key"))
                             .map_err(|m| viol(m))?;
+                        if totality && len == 256 {
+                            for bad in bad_op_lists(&ops) {
+                                let upd = [PathUpdate { inner: v.clone(), ops: bad }];
+                                if let Err(p) = cu(|| verify_update::<H::N>(root, &upd)) {
+                                    judge.panics.push(p);
+                                }
+                            }
+                        }
                     } else if totality {
                         let _ = judge.path_statements::<H>(&v, &pr, &ops, root, "");
                     }
@@ -797,6 +832,14 @@ fn adversarial<H: HK>(case: &CoreCase, totality: bool) -> Result<CaseInfo, Viola
                             judge
                                 .multi_statements::<H>(&v, &pr, &ops, &format!("multi-proof of {} paths (mutated: {mutated})", mp.paths.len()))
                                 .map_err(|m| viol(m))?;
+                            if totality {
+                                // op lists outside the documented domain (duplicates, unsorted) must get a verdict too
+                                for bad in bad_op_lists(&ops) {
+                                    if let Err(p) = cu(|| verify_multi_proof_update::<H::N>(&v, bad)) {
+                                        judge.panics.push(p);
+                                    }
+                                }
+                            }
                         } else {
                             // verified against the root it hashes to: only totality is judged
                             info.bump("multi_proofs_verified_against_own_root");
@@ -813,10 +856,10 @@ fn adversarial<H: HK>(case: &CoreCase, totality: bool) -> Result<CaseInfo, Viola
                                 }
                             }
                             // unsorted / duplicate / out-of-scope op lists
-                            let mut bad = ops.clone();
-                            bad.reverse();
-                            if let Err(p) = cu(|| verify_multi_proof_update::<H::N>(&v, bad)) {
-                                j2.panics.push(p);
+                            for bad in bad_op_lists(&ops) {
+                                if let Err(p) = cu(|| verify_multi_proof_update::<H::N>(&v, bad)) {
+                                    j2.panics.push(p);
+                                }
                             }
                             let rand_ops: Vec<(Key, Option<[u8; 32]>)> = pr.iter().take(5).map(|k| (*k, Some([3u8; 32]))).collect();
                             if let Err(p) = cu(|| verify_multi_proof_update::<H::N>(&v, rand_ops)) {
